@@ -120,7 +120,7 @@ FAMILIES = {
         consts=dict(Raises="NoRaises", Kinds="FK_Kinds", Paths="FK_Paths", Consts="FK_Consts", Tmpls="None0",
                     Fns="FK_Fns", Bodies="FK_Bodies", DispVals="FK_Disp", Preds="FK_Preds", Presets="FK_Presets",
                     MapPaths="FK_MapPaths", Leaves="FK_Leaves", Cbs="FK_Cbs", EffSets="FK_Effs", Caches="FK_Caches"),
-        sharing=True, bfs_consts=dict(Kinds="FK_KindsB", Caches="MemOnly", EffSets="NoEff"),
+        sharing=True, bfs_consts=dict(Kinds="FK_KindsB", Caches="MemOnly", EffSets="NoEff", Bodies="FK_BodiesB"),
         runs={"quick": [dict(mode="bfs", max_nodes=3, sharing=False),
                         dict(mode="sim", max_nodes=5, min_nodes=3, num=16000, depth=16, procs=8)],
               "thorough": [dict(mode="bfs", max_nodes=3, sharing=True), dict(mode="bfs", max_nodes=4, sharing=False),
